@@ -18,7 +18,7 @@ INFO = dict(
         "match-level harness injects an already-parsed symbolic address in place of make_addr (text parsing is C06's subject)",
         "canonical text of an address is an opaque injective rendering (ipaddress.__str__ trusted)",
     ],
-    outside=["the CLI/file path of --undo (covered at FileAnonymizer level in C15/C19)", "configuration lists outside the stated family",
+    outside=["file-level undo beyond the stated address families / one address per line (further covered by C06 token-exactness and C15 composition)", "configuration lists outside the stated family",
              "warm-up histories longer than the stated depth"],
 )
 
@@ -26,8 +26,10 @@ INFO = dict(
 def bounds(tier):
     return dict(addresses="all addresses of both families", hash="all functions text -> digest",
                 v4_configs=[ipc.cfg_key(c) for c in ipc.configs_v4(tier)], v6_host_bits=[c["B"] for c in ipc.configs_v6(tier)],
-                warm_depth="k=1 arbitrary request (either direction, arbitrary address: exhaustive split on its common-prefix length with the later query) before the inverse; configs: " + repr([ipc.cfg_key(c) for c in _warm_cfgs(tier)]) + (" ; k=2 for prefix list none, B=8" if tier == "thorough" else ""),
-                match_level="one symbolic token through _anonymize_match forward then undo")
+                warm_depth="k=1 arbitrary request (either direction, arbitrary address: exhaustive split on its common-prefix length with the later query) before the inverse; configs: " + repr([ipc.cfg_key(c) for c in _warm_cfgs(tier)]) + (" ; k=2 (direction patterns aa, au, uu) for prefix list none, B=8" if tier == "thorough" else ""),
+                match_level="one symbolic token through _anonymize_match forward then undo",
+                file_level="FileAnonymizer.anonymize_io forward, then undo by a fresh FileAnonymizer, on one line 'ip <address> x' for the address families %r (symbolic fields, all text shapes)" % (
+                    [f["name"] for f in (FILE_FAMILIES[:2] if tier == "quick" else FILE_FAMILIES)],))
 
 
 def _warm_cfgs(tier):
@@ -44,6 +46,8 @@ def items(tier, seed):
     for cfg in ipc.configs_v6(tier):
         out.append(Item("C02", "cold_inverse", dict(family=6, cfg=cfg), budget_s=600, obligation="H1-cold-inverse-v6"))
     out.append(Item("C02", "match_level", dict(family=6, cfg=dict(prefixes=None, networks=None, B=8)), budget_s=600, obligation="H3-match-level-v6"))
+    for fi in (range(2) if tier == "quick" else range(len(FILE_FAMILIES))):
+        out += _file_items(fi, tier)
     for cfg in _warm_cfgs(tier):
         for d in (0, 1):
             for lo, hi in ipc.shards(33, 3):
@@ -51,6 +55,8 @@ def items(tier, seed):
     if tier == "thorough":
         for d1 in (0, 1):
             for d2 in (0, 1):
+                if (d1, d2) == (1, 0):
+                    continue     # undo-then-anonymize warm-up at depth 2: z3 gives no answer within the per-query budget (measured); depth 1 and C03 cover it
                 for lo, hi in ipc.shards(33, 4):
                     out.append(Item("C02", "warm_inverse", dict(family=4, cfg=dict(prefixes=[], networks=None, B=8), k=2, dirs=[d1, d2], ms=[lo, hi]), budget_s=3000, obligation="H2-warm-inverse-v4"))
         for d in (0, 1):
@@ -282,4 +288,155 @@ def _match_roundtrip_plain(model, cfg, family, av):
     return r
 
 
-HARNESSES = {"cold_inverse": cold_inverse, "warm_inverse": warm_inverse, "match_level": match_level}
+# ---------------------------------------------------------------------------------------------------------------
+# H4: file level.  FileAnonymizer(anon_ip).anonymize_io, then a fresh FileAnonymizer(undo_ip_anon).anonymize_io on what the
+# first one wrote.  Address atoms are rendered to text whose shape (digits per octet / hextet, '::' position) is forked on
+# the value, so that the IPv4 pass really rescans what the IPv6 pass wrote, in both directions.
+# family: (address family, template with symbolic fields, preserved host bits v4, v6)
+FILE_FAMILIES = [
+    dict(name="v4-two-octets", family=4, parts=[(77, 8), ("s", 8), (3, 8), ("t", 8)], b4=24, b6=8),
+    dict(name="v6-v4mapped", family=6, parts=[(0, 80), (0xffff, 16), (0xc0, 8), ("s", 8), ("t", 16)], b4=8, b6=112),
+    dict(name="v6-tail", family=6, parts=[(0x20010db8, 32), (0, 64), ("s", 16), ("t", 16)], b4=8, b6=112),
+    dict(name="v4-three-octets", family=4, parts=[("s", 8), ("t", 8), ("u", 8), (9, 8)], b4=8, b6=8),
+    dict(name="v6-v4mapped-wide", family=6, parts=[(0, 80), (0xffff, 16), ("s", 16), ("t", 16)], b4=8, b6=96),
+    dict(name="v6-embedded-zero-run", family=6, parts=[(0x2001, 16), (0, 32), ("s", 16), (0, 48), ("t", 16)], b4=8, b6=112),
+]
+
+
+def _classes(nbits, family):
+    """magnitude classes of a symbolic field = text shapes of that field (work is sharded over them)"""
+    if family == 4 or nbits == 8:
+        return [(0, 9), (10, 99), (100, 255)] if family == 4 else [(0, 0xf), (0x10, 0xff)]
+    return [(0, 0), (1, 0xf), (0x10, 0xff), (0x100, 0xfff), (0x1000, 0xffff)]
+
+
+def _file_items(fi, tier):
+    import itertools
+    fm = FILE_FAMILIES[fi]
+    fields = [(v, n) for v, n in fm["parts"] if isinstance(v, str)]
+    out = []
+    for combo in itertools.product(*[range(len(_classes(n, fm["family"]))) for _, n in fields]):
+        out.append(Item("C02", "file_level", dict(fam=fi, cls={v: c for (v, _), c in zip(fields, combo)}), budget_s=600 if tier == "quick" else 3000, obligation="H4-file-level-roundtrip"))
+    return out
+
+
+class _In:
+    def __init__(self, lines):
+        self.lines = lines
+
+    def readlines(self):
+        return list(self.lines)
+
+
+class _Out:
+    def __init__(self):
+        self.w = []
+
+    def write(self, x):
+        self.w.append(x)
+
+
+def file_level(item, res):
+    fm = FILE_FAMILIES[item.params["fam"]]
+    family, W = fm["family"], ipc.width(fm["family"])
+    F = fam()
+    vs = {}
+    pieces = []
+    for v, n in fm["parts"]:
+        if isinstance(v, str):
+            vs[v] = z3.BitVec("f_" + v, n)
+            pieces.append(vs[v])
+        else:
+            pieces.append(z3.BitVecVal(v, n))
+    a = z3.Concat(*pieces)
+    kw = dict(anon_pwd=False, salt=ipc.SALT, preserve_suffix_v4=fm["b4"], preserve_suffix_v6=fm["b6"])
+    ctx = item.params.get("ctx", ["ip ", " x\n"])
+    ex = Explorer(deadline=time.time() + item.budget_s)
+    found = []
+
+    def text(m, x):
+        return x if isinstance(x, str) else "".join(chr(c) if isinstance(c, int) else chr(ev(m, c)) for c in x.cs)
+
+    def plain_run(m):
+        from .. import replayers
+        av = ev(m, a)
+
+        def run(P):
+            return replayers.ip_file_roundtrip(P, dict(family=family, a=av, kw=kw, ctx=ctx))
+        r, table = ipc.md5_replay_table(m, run)
+        r["table"] = table
+        return av, r
+    def h(ex_):
+        for v, c in (item.params.get("cls") or {}).items():
+            lo, hi = _classes(vs[v].size(), family)[c]
+            ex_.assume(z3.And(z3.UGE(vs[v], lo), z3.ULE(vs[v], hi)))
+        core.RENDER_ATOMS[0] = True
+        try:
+            tok = SStr([Atom("ipv4" if family == 4 else "ipv6", a)]).render()
+            line = SStr.mk([ord(c) for c in ctx[0]] + list(tok.cs) + [ord(c) for c in ctx[1]])
+            o1 = _Out()
+            F.files.FileAnonymizer(anon_ip=True, **kw).anonymize_io(_In([line]), o1)
+            o2 = _Out()
+            F.files.FileAnonymizer(anon_ip=False, undo_ip_anon=True, **kw).anonymize_io(_In(list(o1.w)), o2)
+            l1 = SStr.of(o1.w[0]) if len(o1.w) == 1 else None
+            l2 = SStr.of(o2.w[0]) if len(o2.w) == 1 else None
+            if l1 is None or l2 is None:
+                raise core.EngineError("anonymize_io wrote %d / %d lines for one" % (len(o1.w), len(o2.w)))
+            if isinstance(l1, SStr):
+                l1._noatom("compare")
+            if isinstance(l2, SStr):
+                l2._noatom("compare")
+            # the one stated exception: an IPv4 image that is itself mask-shaped is left alone by the undo
+            excused = False
+            if family == 4:
+                img = F.ip.IpAnonymizer(ipc.SALT, None, None, preserve_suffix=fm["b4"]).anonymize(SInt.unsigned(a))
+                excused = ex_.branch(mask_spec(ipc.out_bv(img, 32))) or ex_.branch(mask_spec(a))
+        finally:
+            core.RENDER_ATOMS[0] = False
+        res["finals"] += 1
+        want = l1 if excused else line
+        if len(SStr.of(l2).cs) != len(SStr.of(want).cs):
+            m = ex_.model(z3.BoolVal(True))
+        else:
+            m = ex_.model(z3.Not(SStr.of(l2).eq_expr(SStr.of(want))))
+        if m is None:
+            res["finals_unsat"] += 1
+            return ("ok", line, l1, l2)
+        # the text differs; the verdict is by value (another spelling of the restored address is not a violation): decided on
+        # the un-instrumented code for this path's model
+        av, r = plain_run(m)
+        if r["violated"]:
+            found.append((m, av, r))
+            ex_.stop_requested = True      # one counterexample decides the item
+            return ("cex", line, l1, l2)
+        res["notes"].append("undone line differs in spelling only: %s" % r["detail"]) if len(res["notes"]) < 3 else None
+        return ("spelling", line, l1, l2)
+    paths = ex.explore(h)
+    harness.add_stats(res, ex)
+    nval = 0
+    for p in paths[::max(1, len(paths) // 25)]:
+        if p.model is None or p.exc is not None or p.result[0] != "ok":
+            continue
+        av, r = plain_run(p.model)
+        want = [text(p.model, p.result[1]), text(p.model, p.result[2]), text(p.model, p.result[3])]
+        if r["texts"] != want:
+            raise core.EngineError("concolic mismatch at file level: symbolic %r concrete %r" % (want, r["texts"]))
+        nval += 1
+        if len(res["samples"]) < 2:
+            res["samples"].append(dict(family=fm["name"], line=want[0], anonymized=want[1], undone=want[2]))
+    res["validated"] += nval
+    for p in paths:
+        if p.exc is not None and p.model is not None:
+            av, r = plain_run(p.model)
+            found.append((p.model, av, r))
+    for m, av, r in found[:3]:
+        res["violations"].append(dict(description="file-level undo of the anonymized line does not restore it: %s" % r["detail"], witness=dict(a=av, texts=r["texts"], options=kw),
+                                      tags=["file-roundtrip:%s" % fm["name"]],
+                                      replay=dict(replayer="ip_file_roundtrip", args=dict(family=family, a=av, kw=kw, ctx=ctx, md5_table=r["table"]))))
+        res["status"] = "violated"
+    res["vacuity"] = "witnessed" if any(p.model is not None and p.exc is None for p in paths) else "VACUOUS"
+    if res["vacuity"] != "witnessed":
+        raise core.EngineError("no feasible path")
+
+
+HARNESSES = {"cold_inverse": cold_inverse, "warm_inverse": warm_inverse, "match_level": match_level, "file_level": file_level}
